@@ -422,8 +422,12 @@ func runC19(env *Env, rc *RunCtx) {
 							break
 						}
 					}
-					// the lookups used by the engine agree with the listing
+					// the lookups used by the engine agree with the listing (compared only when
+					// no delivery is in flight: listing and lookup are two instants)
 					for _, n := range vis {
+						if inFlightFile != nil {
+							break
+						}
 						if _, err := m.GetNamespaceByName(ctx, n); err != nil {
 							viol = rc.Violate("inconsistent-lookup", kind, fmt.Sprintf("%s is listed but GetNamespaceByName fails: %v", n, err), map[string]any{"history": hist}, -1, nil)
 							return false
@@ -457,7 +461,12 @@ func runC19(env *Env, rc *RunCtx) {
 					rn = append(rn, n.Name)
 				}
 				sort.Strings(rn)
-				if fmt.Sprint(rn) != fmt.Sprint(names) {
+				// (a reader that runs while a delivery is in flight reads the manager and
+				// the REST endpoint at two different instants: the reload may fall between
+				// them - which goroutine runs when one of them touches the log is the Go
+				// scheduler's choice here, not the tape's - so the two are only compared
+				// when nothing is in flight)
+				if inFlightFile == nil && fmt.Sprint(rn) != fmt.Sprint(names) {
 					viol = rc.Violate("rest-differs", kind, fmt.Sprintf("GET /namespaces %v differs from the manager %v", rn, names), map[string]any{"history": hist}, -1, nil)
 					return false
 				}
